@@ -1123,3 +1123,47 @@ Example match_example_bad :
   /\ path_match Linux false [98; 42; 91]%N [97]%N = MVal false
   /\ path_match Linux true [98; 42; 91]%N [97]%N = MBad.
 Proof. repeat split; reflexivity. Qed.
+
+(* ---- the parse of a pattern is unique ----------------------------------------------------------- *)
+Lemma get_esc_rbrack rest r c1 : get_esc Linux (RBRACK :: rest) = Some (r, c1) -> False.
+Proof. intros H. destruct (get_esc_some _ H) as (_ & _ & c & tl & [= <- _] & Hc & _). congruence. Qed.
+
+Lemma cls_parse_det b chunk rs rest :
+  cls_parse b chunk rs rest -> forall b' rs' rest', cls_parse b' chunk rs' rest' -> rs = rs' /\ rest = rest'.
+Proof.
+  induction 1 as [rest|b chunk lo c1 rs rest E1 Hm _ IH|b chunk lo c2 hi c3 rs rest E1 E2 _ IH];
+    intros b' rs' rest' H'.
+  - inversion H' as [|? ? ? ? ? ? E1'|? ? ? ? ? ? ? ? E1']; subst; auto; exfalso; exact (get_esc_rbrack E1').
+  - inversion H' as [|? ? ? ? ? ? E1' Hm' Hc'|? ? ? ? ? ? ? ? E1' E2' Hc']; subst.
+    + exfalso. exact (get_esc_rbrack E1).
+    + rewrite E1 in E1'. injection E1' as <- <-. destruct (IH _ _ _ Hc') as (<- & <-). auto.
+    + rewrite E1 in E1'. injection E1' as Hlo Hc1. subst. cbn [hd] in Hm. congruence.
+  - inversion H' as [|? ? ? ? ? ? E1' Hm' Hc'|? ? ? ? ? ? ? ? E1' E2' Hc']; subst.
+    + exfalso. exact (get_esc_rbrack E1).
+    + rewrite E1 in E1'. injection E1' as Hlo Hc1. subst. cbn [hd] in Hm'. congruence.
+    + rewrite E1 in E1'. injection E1' as <- <-. rewrite E2 in E2'. injection E2' as <- <-.
+      destruct (IH _ _ _ Hc') as (<- & <-). auto.
+Qed.
+
+Theorem chunk_parses_det chunk ops : chunk_parses chunk ops -> forall ops', chunk_parses chunk ops' -> ops = ops'.
+Proof.
+  induction 1 as [|chunk ops _ IH|c chunk ops _ IH|c chunk ops H1 H2 H3 _ IH|body rs rest ops Hc _ IH|body rs rest ops Hcar Hc _ IH];
+    intros ops' H'; inversion H'; subst; try congruence;
+    try (f_equal; apply IH; assumption);
+    try (cbn [hd] in *; congruence).
+  - match goal with Hc' : cls_parse _ body _ _ |- _ => destruct (cls_parse_det Hc Hc') as (<- & <-) end.
+    f_equal. apply IH. assumption.
+  - match goal with Hc' : cls_parse _ body _ _ |- _ => destruct (cls_parse_det Hc Hc') as (<- & <-) end.
+    f_equal. apply IH. assumption.
+Qed.
+
+Theorem pat_parses_det pattern cks : pat_parses pattern cks -> forall cks', pat_parses pattern cks' -> cks = cks'.
+Proof.
+  induction 1 as [|pattern star chunk rest ops cks Hne Hs Hc _ IH]; intros cks' H'.
+  - inversion H'; [reflexivity|congruence].
+  - inversion H' as [|? star' chunk' rest' ops' cks2 _ Hs' Hc' Hr']; subst; [congruence|].
+    rewrite Hs in Hs'. injection Hs' as <- <- <-. rewrite (chunk_parses_det Hc Hc'). f_equal. apply IH. exact Hr'.
+Qed.
+
+Lemma pat_parses_unique : forall pattern cks cks', pat_parses pattern cks -> pat_parses pattern cks' -> cks = cks'.
+Proof. intros pattern cks cks' H H'. exact (pat_parses_det H H'). Qed.
